@@ -8,7 +8,8 @@ ended before its header, transport connection error, internal error) and every s
   * a second control / encoder / decoder stream - second with respect to the pre-state OR to a stream classified earlier in
     the same call - is the connection error H3_STREAM_CREATION_ERROR, and nothing else raises that error;
   * the first one of each kind is installed in its slot and raises nothing;
-  * a stream of unknown type is stop_sending'ed with H3_STREAM_CREATION_ERROR and never a connection error; a stream that
+  * a stream of unknown type is never a connection error (that h3 aborts reading it with H3_STREAM_CREATION_ERROR is
+    recorded as a witness, not demanded: RFC 9114 6.2 leaves 'abort or discard' to the implementation); a stream that
     ended or was reset before its header was complete is dropped silently;
   * a WebTransport unidirectional stream is handed on (with the session id from its header) if and only if WebTransport
     is enabled in the configuration, and is never a connection error;
@@ -303,12 +304,9 @@ def check(L, tier, log, samples):
         # 2. unknown streams: stop_sending(H3_STREAM_CREATION_ERROR), never a connection error
         for tag, kind in classified:
             if kind == "Unknown":
-                mine = [e for e in stops if e[1] == tag]
-                queries += 1
-                if len(mine) != 1 or ex.feasible(s, mine[0][2] != creation):
-                    viols.append({"key": "c04.accept_recv.unknown_stream_not_stopped", "what": "a stream of unknown type is not stop_sending'ed with H3_STREAM_CREATION_ERROR exactly once",
-                                  "model": {"classified": classified}})
-                else:
+                # the property: never a connection error (checked below). Whether reading is aborted (and with which code) or
+                # the data is discarded is the implementation's choice (RFC 9114 6.2): recorded, not judged
+                if [e for e in stops if e[1] == tag]:
                     wit["unknown_stopped"] = True
             if kind in ("Unknown", "Push", "WebTransportUni") and last == (tag, kind) and errs and not s.world.get("transport_error") \
                     and not any(k in ("IncomingError", "InternalError") for _, k in s.world["poll_type"]):
